@@ -643,7 +643,7 @@ def gen_case (rng):
   kind = rng.choice(["tcp", "udp", "icmp", "arp_req", "other", "tcp_opts",
                      "ipother", "frag_later", "frag_first", "tcp", "udp",
                      "icmp_quote", "gre_ip", "llc", "snap0", "snapx", "snap_ip",
-                     "qinq", "arp_rep", "lldp"])
+                     "qinq", "arp_rep", "lldp", "stag", "stag"])
   dst = None
   if rng.random() < 0.1: dst = OA.STP_MAC
   raw, desc = framegen.gen_frame(rng, kind, pad=rng.random() < 0.12, dst=dst,
